@@ -59,7 +59,9 @@ def value_to_json(value: object) -> object:
         try:
             value.encode("utf-8")
         except UnicodeEncodeError:
-            return {"string": repr(value)}
+            # Use ascii instead of repr, so that it does not depend on which characters
+            # the unicode version of this Python version can print
+            return {"string": ascii(value)}
         return value
     if value == ...:
         return {"type": "ellipsis"}
